@@ -547,7 +547,8 @@ example : store toyH ⟨1, 0x71, 0x12, -1⟩ ⟨[[0xf5], [0x00]], false, none⟩
     store toyH ⟨1, 0x71, 0x12, -1⟩ ⟨[[0xf5], [0x00]], false, some 2⟩ = .committed toyL [0xf5, 0x00] ∧
     store toyH ⟨1, 0x71, 0x12, -1⟩ ⟨[[0xf5], [0x00]], true, none⟩ = .failed ∧
     store toyH ⟨1, 0x71, 0x12, -1⟩ ⟨[[0xf5], [0x00]], false, some 1⟩ = .failed ∧
-    store toyH ⟨1, 0x71, 0x12, 5⟩ ⟨[[0xf5], [0x00]], false, none⟩ = .panicked := by decide
+    store toyH ⟨1, 0x71, 0x12, 5⟩ ⟨[[0xf5], [0x00]], false, none⟩ = .committed toyL [0xf5, 0x00] ∧
+    store toyH ⟨0, 0x71, 0x13, -1⟩ ⟨[[0xf5], [0x00]], false, none⟩ = .panicked := by decide
 
 /-- `store_never_commits_prefix` on concrete data: the writer fails on the second write; the first write
     alone (which would be a perfectly well-formed block with its own link) is not committed. -/
